@@ -96,3 +96,21 @@ Lemma w_former_c09_accepted :
   self9 w_renamed_ifs w_renamed_its = [] /\ self9 w_probing_goodbye_ifs w_probing_goodbye_its = [] /\
   self9 w_resend_if_ifs w_resend_if_its = [].
 Proof. repeat split; vm_compute; reflexivity. Qed.
+
+(* round 3: an announcement made by add_interface is repeated one second later (fix 4b0055d) *)
+Lemma w_added_twice_accepted :
+  self7 w_added_twice_ifs w_added_twice_its = [] /\
+  busy (timeline w_added_twice_ifs w_added_twice_its) =
+  [ (1000000, false, true, false); (1001000, false, true, false);
+    (1002600, false, true, false); (1003600, false, true, false) ].
+Proof. split; vm_compute; reflexivity. Qed.
+
+(* round 3: probes started by a pending second announcement on a re-created registry are due work
+   and are sent 250 ms apart (fix 2ff6a49 gives them their timers) *)
+Lemma w_resend_probes_accepted :
+  self7 w_resend_probes_ifs w_resend_probes_its = [] /\
+  busy (timeline w_resend_probes_ifs w_resend_probes_its) =
+  [ (1000145, true, false, false); (1000395, true, false, false); (1000645, true, false, false);
+    (1000895, false, true, false);
+    (1001993, true, false, false); (1002243, true, false, false); (1002493, true, false, false) ].
+Proof. split; vm_compute; reflexivity. Qed.
